@@ -3,4 +3,5 @@ INVARIANT RefNoDup
 INVARIANT RefOrdered
 INVARIANT RefEligible
 INVARIANT RefNonVacuous
+INVARIANT RefModeFromInputs
 CHECK_DEADLOCK FALSE
